@@ -397,7 +397,7 @@ func runAgent(sc agentScript) (obs agentObs) {
 		defs.ForwarderRetryInterval = 10 * time.Millisecond
 		defs.ForwarderPingInterval = 50 * time.Millisecond
 		defs.IntermediateChannelTimeout = 2 * time.Second
-		defs.IntermediateFlushInterval = 20 * time.Millisecond
+		defs.IntermediateFlushInterval = 60 * time.Millisecond // the production ratio: key-set buffers are flushed less often than the listener ticks
 		defs.BufferShutDownTimeout = 1 * time.Second
 		defs.InputFlushInterval = 20 * time.Millisecond
 	})
@@ -517,6 +517,23 @@ func runAgent(sc agentScript) (obs agentObs) {
 						if crng.Intn(10) == 0 {
 							w.Flush()
 							time.Sleep(time.Duration(crng.Intn(3)) * time.Millisecond)
+						}
+					}
+					if c%3 == 1 && sc.apps > 1 {
+						// phases: after the mixed records a pause that lets the listener hand its batch to the key-set buffers, then a few
+						// records of ONE key set only, twice — a batch of a single key set must still queue behind what its key set has pending
+						for ph := 0; ph < 2; ph++ {
+							w.Flush()
+							time.Sleep(2*time.Duration(defs.InputFlushInterval) + 5*time.Millisecond)
+							for k := 0; k < 4; k++ {
+								i := sc.recs + ph*4 + k
+								stamp := fmt.Sprintf("g%dc%dapp0-%d", g, c, i)
+								body := strings.Repeat("p", k)
+								fmt.Fprintf(w, "<14>1 2020-01-02T03:04:05.%06dZ host%d app0 77 src - [%s] %s\n", i, c, stamp, body)
+								mu.Lock()
+								obs.sent = append(obs.sent, stamp+"|"+body)
+								mu.Unlock()
+							}
 						}
 					}
 					if c%2 == 0 {
